@@ -140,6 +140,34 @@ pub fn deep_chain_docs(max_depth: usize) -> Vec<DocEntry> {
     out
 }
 
+/// documents in which one parent occurs n times (n around powers of two up to `max`): occurrence
+/// counters must not wrap or saturate
+pub fn many_occurrence_docs(max: usize) -> Vec<DocEntry> {
+    let mut ns: Vec<usize> = Vec::new();
+    for base in [127usize, 255, 256, 511, 1000, 65535, 65536] {
+        for n in [base - 1, base, base + 1, base + 2] {
+            if n <= max && !ns.contains(&n) {
+                ns.push(n);
+            }
+        }
+    }
+    let mut out = Vec::new();
+    for n in ns {
+        // every occurrence has b; only the last one (or the first one) lacks c
+        let full = "<a><b/><c/></a>".repeat(n);
+        for xml in [
+            format!("<r>{}</r>", full),
+            format!("<r>{}<a><b/></a></r>", full),
+            format!("<r><a><b/></a>{}</r>", full),
+        ] {
+            if let Ok(d) = DocEntry::from_xml(&xml) {
+                out.push(d);
+            }
+        }
+    }
+    out
+}
+
 /// a history evaluated on the real code
 pub struct Eval {
     pub el: Element<String>,
